@@ -373,8 +373,8 @@ class EquationSolver(object):
                     new_value[var] = initial[var]
                     had_evaluation_errors = True
                     last_error = 'Error evaluating variable {0} = {1}'.format(var, str(er))
-                except ValueError as er:
-                    # We get a ValueError thrown by evaluating log10(0)
+                except (ValueError, OverflowError) as er:
+                    # We get a ValueError thrown by evaluating log10(0); OverflowError by exp(1000.)
                     new_value[var] = initial[var]
                     had_evaluation_errors = True
                     last_error = 'Error evaluating variable {0}. Error message: {1}'.format(var, str(er))
